@@ -4,6 +4,7 @@ what the specification (Spec/Svg.lean) expects.
 -/
 import SkNet.Lemmas.SvgEdges
 import SkNet.Lemmas.SvgRescale
+import SkNet.Lemmas.Utf8
 
 set_option linter.unusedSimpArgs false
 
@@ -164,8 +165,7 @@ theorem visualizeGraph_docMeets (ν : Nums) (a : GraphArgs) (d : Drawing) (hν :
   split at h
   · simp at h
   rename_i text htext
-  simp only [Except.ok.injEq] at h
-  subst h
+  rw [writeFile_svg h]
   have hcs := getNodeColors_safe hν hnc hlc hcolors
   obtain ⟨he1, he2⟩ := graphEdgeParts_inner hν a pos hec hlc hedges
   have hI : Inner (edges.2 ++ (nodes ++ text)) :=
@@ -293,8 +293,7 @@ theorem visualizeBigraph_docMeets (ν : Nums) (a : BigraphArgs) (d : Drawing) (h
   split at h
   · simp at h
   rename_i textCol htc
-  simp only [Except.ok.injEq] at h
-  subst h
+  rw [writeFile_svg h]
   have h1 := getNodeColors_safe hν hcr hlc hrow
   have h2 := getNodeColors_safe hν hcc hlc hcol
   have hI : Inner (edges ++ (nodesRow ++ (nodesCol ++ (textRow ++ textCol)))) :=
@@ -318,6 +317,118 @@ theorem visualizeBigraph_docMeets (ν : Nums) (a : BigraphArgs) (d : Drawing) (h
     simp only [← hes, List.length_map, namesTexts_plain]
     rfl
   rw [hexp]
-  simpa [writeFile, Summary.add, nodesSummary] using hdoc
+  simpa [Summary.add, nodesSummary] using hdoc
+
+/-! ### the file -/
+
+/-- writing a lexically sound document never fails, and the bytes decode to the returned string -/
+theorem writeFile_file {f : PyStr} {doc : List Piece} {d : Drawing} (hlex : piecesLexOk doc = true)
+    (h : writeFile (some f) doc = .ok d) :
+    ∃ bytes, d.file = some (f ++ py!".svg", bytes) ∧ utf8Decode bytes = some (render d.svg) := by
+  obtain ⟨bytes, hb, hdec⟩ := render_file doc hlex
+  unfold writeFile at h
+  simp only [hb, Except.ok.injEq] at h
+  subst h
+  exact ⟨bytes, rfl, hdec⟩
+
+theorem writeFile_succeeds (fn : Option PyStr) {doc : List Piece} (hlex : piecesLexOk doc = true) :
+    ∃ d, writeFile fn doc = .ok d := by
+  obtain ⟨bytes, hb, _⟩ := render_file doc hlex
+  cases fn with
+  | none => exact ⟨_, rfl⟩
+  | some f => exact ⟨⟨doc, some (f ++ py!".svg", bytes)⟩, by simp [writeFile, hb]⟩
+
+/-- the document `visualize_graph` hands to `writeFile` -/
+theorem visualizeGraph_struct (ν : Nums) (a : GraphArgs) (d : Drawing) (hν : SafeNums ν)
+    (hnc : SafeStr a.nodeColor) (hec : ∀ c, a.edgeColor = some c → SafeStr c) (hlc : SafeLabelColors a.labelColors)
+    (h : visualizeGraph ν a = .ok d) :
+    ∃ doc, piecesLexOk doc = true ∧ writeFile a.filename doc = .ok d := by
+  unfold visualizeGraph at h
+  simp only [bind, Except.bind, pure, Except.pure] at h
+  split at h
+  · simp at h
+  split at h
+  · simp at h
+  rename_i nodeColors hcolors
+  split at h
+  · simp at h
+  rename_i pos hpos
+  split at h
+  · simp at h
+  rename_i edges hedges
+  split at h
+  · simp at h
+  rename_i nodes hnodes
+  split at h
+  · simp at h
+  rename_i text htext
+  have hcs := getNodeColors_safe hν hnc hlc hcolors
+  obtain ⟨he1, he2⟩ := graphEdgeParts_inner hν a pos hec hlc hedges
+  have hI : Inner (edges.1.flatMap svgMarker ++ (edges.2 ++ (nodes ++ text))) :=
+    Inner.append (Inner.flatMap_mem _ _ (fun c hc => svgMarker_inner (he1 c hc)))
+      (Inner.append he2 (Inner.append (graphNodes_inner hν _ _ _ hcs hnodes) (namesText_inner hν _ _ _ _ htext)))
+  exact ⟨_, svgDoc_lexOk hν false true hI, h⟩
+
+theorem visualizeBigraph_struct (ν : Nums) (a : BigraphArgs) (d : Drawing) (hν : SafeNums ν)
+    (hcr : SafeStr a.colorRow) (hcc : SafeStr a.colorCol) (hec : ∀ c, a.edgeColor = some c → SafeStr c)
+    (hlc : SafeLabelColors a.labelColors) (h : visualizeBigraph ν a = .ok d) :
+    ∃ doc, piecesLexOk doc = true ∧ writeFile a.filename doc = .ok d := by
+  unfold visualizeBigraph at h
+  simp only [bind, Except.bind, pure, Except.pure] at h
+  split at h
+  · simp at h
+  rename_i colorsRow hrow
+  split at h
+  · simp at h
+  rename_i colorsCol hcol
+  split at h
+  · simp at h
+  split at h
+  · simp at h
+  split at h
+  · simp at h
+  rename_i edges hedges
+  split at h
+  · simp at h
+  rename_i nodesRow hnr
+  split at h
+  · simp at h
+  rename_i nodesCol hnc
+  split at h
+  · simp at h
+  rename_i textRow htr
+  split at h
+  · simp at h
+  rename_i textCol htc
+  have h1 := getNodeColors_safe hν hcr hlc hrow
+  have h2 := getNodeColors_safe hν hcc hlc hcol
+  have hI : Inner (edges ++ (nodesRow ++ (nodesCol ++ (textRow ++ textCol)))) :=
+    Inner.append (bigraphEdges_inner hν a hec hlc hedges)
+      (Inner.append (nodeLoop_inner hν _ _ _ h1 hnr) (Inner.append (nodeLoop_inner hν _ _ _ h2 hnc)
+        (Inner.append (namesText_inner hν _ _ _ _ htr) (namesText_inner hν _ _ _ _ htc))))
+  exact ⟨_, svgDoc_lexOk hν true true hI, h⟩
+
+theorem visualizeDendrogram_struct (ν : Nums) (a : DendroArgs) (d : Drawing) (hν : SafeNums ν)
+    (hcol : SafeStr a.color) (hcols : AllSafe a.colors) (h : visualizeDendrogram ν a = .ok d) :
+    ∃ doc, piecesLexOk doc = true ∧ writeFile a.filename doc = .ok d := by
+  unfold visualizeDendrogram svgDendrogram at h
+  simp only [bind, Except.bind, pure, Except.pure] at h
+  split at h
+  · simp at h
+  rename_i svg hsvg
+  split at hsvg
+  · simp at hsvg
+  rename_i index hindex
+  split at hsvg
+  · simp at hsvg
+  rename_i text htext
+  split at hsvg
+  · simp at hsvg
+  rename_i paths hpaths
+  simp only [Except.ok.injEq] at hsvg
+  subst hsvg
+  have hI : Inner (text ++ paths) := Inner.append (dendroNames_inner hν a index htext)
+    (dendroTree_inner hν a hcol hcols index hpaths)
+  exact ⟨_, svgDoc_lexOk hν true false hI, h⟩
 
 end SkNet.Svg
